@@ -510,6 +510,11 @@ func (se *SpecEnv) valOf(x Value) *Term {
 	case *AggV:
 		var sum []*Term
 		w := se.fr.v.wordBitsOf(a)
+		if fp := se.fieldParams(); fp != nil && len(a.Elems) == fp.Limbs {
+			// an Element of the field this specification speaks about: its declared word size (inferring it
+			// from the ranges of the limbs is wrong for concrete limbs that all happen to be small)
+			w = fp.WordBits
+		}
 		for i, e := range a.Elems {
 			t, ok := e.(*Term)
 			if !ok {
